@@ -673,6 +673,12 @@ fn run_case(rt: &tokio::runtime::Runtime, u: &mut Universe, case: &Value) -> Val
 }
 
 fn main() {
+    // every event of the code under test is formatted (into a sink): a panicking expression in the
+    // arguments of a log line surfaces as a `panic` outcome of the case, as it would on a real node
+    let _ = tracing_subscriber::fmt()
+        .with_max_level(tracing::Level::TRACE)
+        .with_writer(std::io::sink)
+        .try_init();
     std::panic::set_hook(Box::new(|_| {}));
     // paused clock: timers fire as soon as every task is idle (back-off sleeps of the retry loop, our own timeouts)
     let rt = tokio::runtime::Builder::new_current_thread().enable_all().start_paused(true).build().unwrap();
